@@ -17,6 +17,8 @@ KINDS = ["list", "tuple", "range", "generator"]
 
 RULE = ("per builder: literal lists of length 0..9 with repeats/opposite literals/all polarities, "
         "constants in [-2, n+2], every operator, container kinds list/tuple/range/generator, CNF and OPB class; "
+        "the SAME argument object handed to 1..3 consecutive calls (`uses`: every use must mean what was written); "
+        "normalize_opb reached directly, through add_constraint and through OPB(constraints), coefficients also beyond 2^64; "
         "distinct = distinct request line; non-trivial = at least one literal")
 ASSUMPTIONS = ["literals are non-zero (enforced by check=True in the real code; hypothesis NonZero in the theorems)"]
 
@@ -109,86 +111,153 @@ def build(suite, info):
     pre = "o" if cls_opb else ""
     state = {}
 
+    uses = info.get("uses", 1) if kind != "generator" else 1     # a generator can be consumed only once
+    shared = {}
+
     def arg():
+        """the argument as the caller holds it: with `uses` > 1 the very same object goes into every call"""
+        if uses > 1 and "a" in shared:
+            return shared["a"]
         if kind == "range":
-            return range(info["range"][0], info["range"][1])
-        return container(lits, kind)
+            a = range(info["range"][0], info["range"][1])
+        else:
+            a = container(lits, kind)
+        shared["a"] = a
+        return a
+
+    def repeated(once):
+        """`once()` builds a fresh formula from arg(); the answer is the LAST of `uses` formulas built from the same
+        argument object (what a caller who keeps its literal list around gets); every earlier one is kept for the oracle"""
+        def impl():
+            shared.clear()
+            state["all"] = []
+            for _ in range(uses):
+                F = once()
+                state["cs"] = list(F)
+                state["all"].append(list(F))
+            return ok(fmt(F))
+        return impl
 
     def get():
         return state.get("cs")
 
+    def every_use(oracle):
+        """the truth-table oracle on the last use, and every earlier use must have stored the same constraints"""
+        def run():
+            r = oracle()
+            if r is not None:
+                return r
+            al = state.get("all") or []
+            for i, cs in enumerate(al[:-1]):
+                if [list(c) for c in cs] != [list(c) for c in al[-1]]:
+                    return {"same_argument_object_used": len(al), "use": i + 1, "stored": [list(c) for c in cs][:10],
+                            "last_use_stored": [list(c) for c in al[-1]][:10]}
+            return None
+        return run
+
     if suite == "lin":
         op, k = info["op"], info["k"]
 
-        def impl():
+        def once():
             F = mk()
             F.add_linear(arg(), op, k) if not cls_opb else getattr(F, {
                 "<=": "cardinality_leq", ">=": "cardinality_geq", "==": "cardinality_eq", "!=": "cardinality_neq",
                 "<": "lt", ">": "gt"}[op])(arg(), k)
-            state["cs"] = list(F)
-            return ok(fmt(F))
+            return F
         if cls_opb and op in ("<", ">"):
-            def impl():  # noqa: BaseOPB has no cardinality_lt/gt: go through add_constraint
+            def once():  # noqa: BaseOPB has no cardinality_lt/gt: go through add_constraint
                 F = mk()
                 F.add_constraint([(1, l) for l in arg()] + [op, k])
-                state["cs"] = list(F)
-                return ok(fmt(F))
+                return F
+        impl = repeated(once)
         r = req(pre + "lin", OPCODE[op], k, enc_list(lits))
-        return Case(suite, r, impl, truth_oracle(get, cls_opb, lits, lambda c: denote(op, c, k)),
+        return Case(suite, r, impl, every_use(truth_oracle(get, cls_opb, lits, lambda c: denote(op, c, k))),
                     cls="{}:{}:{}".format("opb" if cls_opb else "cnf", op, kind), nontrivial=len(lits) > 0, info=info)
     if suite == "parity":
         b = info["b"]
 
-        def impl():
+        def once():
             F = mk()
             F.add_parity(arg(), b)
-            state["cs"] = list(F)
-            return ok(fmt(F))
+            return F
+        impl = repeated(once)
         r = req(pre + "parity", b, enc_list(lits))
-        return Case(suite, r, impl, truth_oracle(get, cls_opb, lits, lambda c: c % 2 == b),
+        return Case(suite, r, impl, every_use(truth_oracle(get, cls_opb, lits, lambda c: c % 2 == b)),
                     cls="{}:{}:{}".format("opb" if cls_opb else "cnf", b, kind), nontrivial=len(lits) > 0, info=info)
     if suite == "maj":
         which = info["which"]
         n = len(lits)
         pred = [lambda c: 2 * c >= n, lambda c: 2 * c <= n, lambda c: 2 * c > n, lambda c: 2 * c < n][which]
 
-        def impl():
+        def once():
             F = mk()
             getattr(F, MAJ[which])(arg())
-            state["cs"] = list(F)
-            return ok(fmt(F))
+            return F
+        impl = repeated(once)
         r = req(pre + "maj", which, enc_list(lits))
-        return Case(suite, r, impl, truth_oracle(get, cls_opb, lits, pred),
+        return Case(suite, r, impl, every_use(truth_oracle(get, cls_opb, lits, pred)),
                     cls="{}:{}:{}".format("opb" if cls_opb else "cnf", MAJ[which], kind), nontrivial=n > 0, info=info)
     if suite == "normopb":
         terms = [tuple(t) for t in info["terms"]]
         op, k = info["op"], info["k"]
         tl = [l for _, l in terms]
+        route, nuses = info.get("route", "normalize"), info.get("uses", 1)
+        written = list(terms) + [op, k]
 
         def impl():
-            res = normalize_opb(list(terms) + [op, k])
-            state["cs"] = res
-            return ok(fmt_pbc(res))
+            # the caller writes the constraint ONCE and uses that list object `nuses` times; the answer is the last result
+            c = list(terms) + [op, k]
+            results = []
+            if route == "ctor":
+                from cnfgen.formula.opb import OPB
+                batch = [c, [(1, 1), (1, 2), ">=", 1]]
+                for _ in range(nuses):
+                    results.append(list(OPB(batch)[0]))
+            elif route == "add2":                # twice (or more) into the same formula
+                F = BaseOPB()
+                for _ in range(nuses):
+                    F.add_constraint(c)
+                results = [list(x) for x in F]
+            else:
+                for i in range(nuses):
+                    if route == "normalize" or (route == "show_then_add" and i < nuses - 1):
+                        results.append(list(normalize_opb(c)))
+                    else:
+                        F = BaseOPB()
+                        F.add_constraint(c, check=(route != "add_unchecked"))
+                        results.append(list(F[0]))
+            state["all"] = results
+            state["cs"] = results[-1]
+            return ok(fmt_pbc(results[-1]))
 
         def oracle():
-            res = state.get("cs")
-            if res is None:
-                return None
             n = vars_of(tl)
-            if res[-2] not in (">=", "=="):
-                return {"operator_after_normalisation": res[-2]}
-            if any(c < 0 for c, _ in res[:-2]):
-                return {"negative_coefficient_after_normalisation": res[:-2]}
-            if any(c == 0 for c, _ in res[:-2]):
-                return {"zero_coefficient_after_normalisation": res[:-2]}
-            for alpha in common.assignments(n):
-                if common.pbc_holds(res, alpha) != common.pbc_holds(list(terms) + [op, k], alpha):
-                    return {"assignment": [i for i in range(1, n + 1) if alpha[i]], "normalised": res}
+            for i, res in enumerate(state.get("all") or []):
+                where = {"route": route, "use": i + 1, "of": nuses, "written": [list(t) for t in terms] + [op, k]}
+                if res[-2] not in (">=", "=="):
+                    return dict(where, operator_after_normalisation=res[-2])
+                if any(c < 0 for c, _ in res[:-2]):
+                    return dict(where, negative_coefficient_after_normalisation=[list(t) for t in res[:-2]])
+                if any(c == 0 for c, _ in res[:-2]):
+                    return dict(where, zero_coefficient_after_normalisation=[list(t) for t in res[:-2]])
+                for alpha in common.assignments(n):
+                    if common.pbc_holds(res, alpha) != common.pbc_holds(written, alpha):
+                        return dict(where, assignment=[v for v in range(1, n + 1) if alpha[v]],
+                                    stored=[list(t) for t in res[:-2]] + list(res[-2:]),
+                                    written_holds=common.pbc_holds(written, alpha))
             return None
         r = req("normopb", OPCODE[op], k, enc_pairs(terms))
         cls = "zerocoef" if any(c == 0 for c, _ in terms) else op
+        if nuses > 1 or route != "normalize":
+            cls += ":" + route + ("x{}".format(nuses) if nuses > 1 else "")
         return Case(suite, r, impl, oracle, cls=cls, nontrivial=len(terms) > 0, info=info)
     raise ValueError("unknown suite " + suite)
+
+
+NORM_ROUTES = ["normalize", "add", "add_unchecked", "add2", "show_then_add", "ctor"]
+NORM_CORPUS = [([(1, 3), (-2, 2), (1, 4)], ">", 3), ([(1, 3), (2, 1), (-3, -2)], "==", 3), ([(2, -3)], "<", 1),
+               ([(-1, 1), (-1, 2), (-1, 3)], ">=", -1), ([(-1, 1), (-1, 2)], "<=", -1), ([(0, 1), (-3, 2), (2, 3)], ">=", 0),
+               ([], "<", 0), ([(-2, 1), (3, -2), (-1, 4)], ">", -2)]
 
 
 def gen_lits(rng, n):
@@ -233,6 +302,8 @@ def cases(ctx):
         opb = rng.random() < .4
         kind = rng.choice(KINDS)
         extra = {}
+        if kind != "generator" and rng.random() < .35:
+            extra["uses"] = rng.choice([2, 2, 3])      # the caller keeps the literal container and uses it again
         if kind == "range":
             a = rng.randint(1, 4)
             extra["range"] = [a, a + n]
@@ -248,12 +319,22 @@ def cases(ctx):
             infos.append(("parity", dict(lits=lits, b=rng.choice([0, 1]), opb=opb, kind=kind, **extra)))
         else:
             infos.append(("maj", dict(lits=lits, which=rng.randrange(4), opb=opb, kind=kind, **extra)))
+    # one written constraint, every way of using it, once and several times (seeded change C04-r6a: the first use was right)
+    for route in NORM_ROUTES:
+        for nuses in (1, 2, 3):
+            for terms, op, k in NORM_CORPUS:
+                infos.append(("normopb", dict(terms=terms, op=op, k=k, route=route, uses=nuses)))
     for _ in range(reps // 3):
         n = rng.randint(0, 6)
-        terms = [(rng.randint(-4, 4), rng.choice([1, -1]) * rng.randint(1, 5)) for _ in range(n)]
+        big = rng.random() < .06
+        terms = [(rng.randint(-4, 4) * (rng.choice([2 ** 31, 2 ** 64 + 1]) if big else 1),
+                  rng.choice([1, -1]) * rng.randint(1, 5)) for _ in range(n)]
         if rng.random() < .7:
             terms = [(c if c != 0 else 1, l) for c, l in terms]
-        infos.append(("normopb", dict(terms=terms, op=rng.choice(OPS[:5]), k=rng.randint(-6, 8))))
+        extra = {}
+        if rng.random() < .5:
+            extra = dict(route=rng.choice(NORM_ROUTES), uses=rng.choice([1, 2, 2, 3]))
+        infos.append(("normopb", dict(terms=terms, op=rng.choice(OPS[:5]), k=rng.randint(-6, 8) * (2 ** 64 if big else 1), **extra)))
     infos.append(("normopb", dict(terms=[(0, 1), (2, -3)], op=">=", k=1)))   # D27 replay
     for suite, info in infos:
         yield build(suite, info)
